@@ -53,7 +53,7 @@ STEMS = ['ax', 'a', 'wol', 'kn', 'l', 'bak', 'tr', 'big', 'wi', 'bo', 'cla', 'bu
          'di', 'wo', 'fl', 'qui', 'e', 'go', 'ru', 'bus', 'lik', 'fre', 'pon', 'fish']
 IRREG = ['geese', 'mice', 'went', 'oxen', 'better', 'lemmata']
 TAILS = sorted(set(SUFFIXES) | set(REPLACEMENTS) | {''})
-NQ = {'quick': 50, 'thorough': 160}
+NQ = {'quick': 50, 'thorough': 120}
 MAX_DISCS = 25
 
 
@@ -431,5 +431,5 @@ SUBS = [
                         '(generator stratification, not an exhaustive family)',
         sample=_sample, require_tags=_REQUIRED),
     Sub('random-lexicons', oracle, _classify, strategy=_strategy,
-        budget={'quick': 25, 'thorough': 100}, sample=_sample),
+        budget={'quick': 25, 'thorough': 60}, sample=_sample),
 ]
